@@ -94,7 +94,7 @@ theorem timerInv_pump (e : Ep) (n : Nat) (hi : TimerInv e) : TimerInv (pump e n)
     · exact h1
   · simp only []
     split
-    · exact timerInv_doClose _ h1
+    · exact h1
     · split
       · exact timerInv_checkSessTerm _ (timerInv_of_view rfl h1)
       · exact timerInv_of_view rfl h1
@@ -252,7 +252,9 @@ theorem timerInv_step (e : Ep) (ev : Ev) (hi : TimerInv e) : TimerInv (step e ev
     simp only []
     split
     · exact hi
-    · exact timerInv_pump _ _ hi
+    · split
+      · exact hi
+      · exact timerInv_of_view rfl (timerInv_pump _ _ (timerInv_of_view (e := e) rfl hi))
   | rx c =>
     simp only []
     split
